@@ -2,6 +2,7 @@ INIT Init
 NEXT Next
 CHECK_DEADLOCK FALSE
 INVARIANT GrammarVsAlgo
+INVARIANT JsonSubset
 INVARIANT Emit
 CONSTANTS
   L = 7
